@@ -342,6 +342,74 @@ Definition serve (sh : shape) (cfg : config) (us : list user) (r : route) (k : r
        | Some _ => inner_plain k rq
        end.
 
+(* ------------------------------------------------------------------------------------------------------------ *)
+(* Part C: the RequiredPrivileges table (one row per statement type; instantiated from the source by the translator in
+   Gen_Privileges.v and frozen by hand in Privileges.v) *)
+Record pentry := mk_pentry {
+  pe_admin : bool;         (* Admin: true *)
+  pe_name : string;        (* "" = the request's db; otherwise the Go expression naming the database *)
+  pe_priv : string;        (* name of the influxql constant *)
+  pe_cond : string }.      (* enclosing conditions, "" = unconditional *)
+Record stmt_priv := mk_stmt_priv {
+  sp_type : string; sp_simple : bool; sp_entries : list pentry; sp_calls : list string }.
+
+Definition pentry_eqb (a b : pentry) : bool :=
+  Bool.eqb (pe_admin a) (pe_admin b) && String.eqb (pe_name a) (pe_name b) && String.eqb (pe_priv a) (pe_priv b)
+  && String.eqb (pe_cond a) (pe_cond b).
+Fixpoint list_eqb {A} (eqb : A -> A -> bool) (a b : list A) : bool :=
+  match a, b with
+  | [], [] => true
+  | x :: a', y :: b' => eqb x y && list_eqb eqb a' b'
+  | _, _ => false
+  end.
+Definition stmt_priv_eqb (a b : stmt_priv) : bool :=
+  String.eqb (sp_type a) (sp_type b) && Bool.eqb (sp_simple a) (sp_simple b)
+  && list_eqb pentry_eqb (sp_entries a) (sp_entries b) && list_eqb String.eqb (sp_calls a) (sp_calls b).
+
+Definition priv_of_name (s : string) : option priv :=
+  if String.eqb s "ReadPrivilege" then Some ReadPriv
+  else if String.eqb s "WritePrivilege" then Some WritePriv
+  else if String.eqb s "AllPrivileges" then Some AllPriv
+  else if String.eqb s "NoPrivileges" then Some NoPriv
+  else None.
+
+(* meaning of one unconditional entry for a statement whose own database field holds stmt_db *)
+Definition req_of_entry (stmt_db : string) (e : pentry) : option reqpriv :=
+  if negb (String.eqb (pe_cond e) "") then None
+  else if pe_admin e then Some RAdmin
+  else match priv_of_name (pe_priv e) with
+       | None => None
+       | Some p => if String.eqb (pe_name e) "" then Some (RDb "" p)
+                   else if String.eqb (pe_name e) "s.Database" then Some (RDb stmt_db p)
+                   else None
+       end.
+Fixpoint req_of_entries (stmt_db : string) (es : list pentry) : option stmt :=
+  match es with
+  | [] => Some []
+  | e :: r => match req_of_entry stmt_db e, req_of_entries stmt_db r with
+              | Some x, Some xs => Some (x :: xs)
+              | _, _ => None
+              end
+  end.
+Fixpoint find_stmt_priv (tbl : list stmt_priv) (ty : string) : option stmt_priv :=
+  match tbl with
+  | [] => None
+  | sp :: r => if String.eqb (sp_type sp) ty then Some sp else find_stmt_priv r ty
+  end.
+(* the requirement list of a simple statement type; None for the types whose method computes *)
+Definition required_of (tbl : list stmt_priv) (ty stmt_db : string) : option stmt :=
+  match find_stmt_priv tbl ty with
+  | Some sp => if sp_simple sp then req_of_entries stmt_db (sp_entries sp) else None
+  | None => None
+  end.
+(* Sources.RequiredPrivileges: read on the database of every measurement; SELECT adds write on the target's database;
+   CREATE CONTINUOUS QUERY: read on its database and write on the target's if that names a database *)
+Definition sources_req (dbs : list string) : stmt := map (fun d => RDb d ReadPriv) dbs.
+Definition select_req (srcs : list string) (target : option string) : stmt :=
+  (sources_req srcs ++ match target with Some d => [RDb d WritePriv] | None => [] end)%list.
+Definition cq_req (db target : string) : stmt :=
+  RDb db ReadPriv :: (if String.eqb target "" then [] else [RDb target WritePriv]).
+
 (* a request path: prefix dispatch first, then the route the mux selected *)
 Definition serve_path (sh : shape) (cfg : config) (guards : list string) (ps : list prefix_rule) (us : list user)
            (path : string) (r : route) (k : rkind) (rq : request) : N * list effect :=
